@@ -72,9 +72,11 @@ theorem C19_input_counted_once (raw : Nat) (o : Parse.Outcome) :
 
 /-! ### fact obligations (Tie B) -/
 
-/-- `OnForwarded` is called where the chunk is queued for acknowledgement, `OnAcknowledged` after the consumed callback -/
+/-- `OnForwarded` is called as soon as `SendChunk` has succeeded — before the hand-off to the acknowledger, which the stop
+request or the end of the acknowledger may win (repaired F-18) — and `OnAcknowledged` after the consumed callback -/
 theorem C19_fact_client_metric_sites : Facts.metric_client_sites =
-    ["sendChunk: OnForwarding", "sendChunk: case session.ackerChan <- chunk: OnForwarded", "runAcknowledger: onChunkAcked, OnAcknowledged"] := by decide
+    ["sendChunk: OnForwarding", "sendChunk: return on SendChunk error", "sendChunk: OnForwarded", "sendChunk: hand-off select",
+     "runAcknowledger: onChunkAcked, OnAcknowledged"] := by decide
 /-- the chunk manager updates the pending gauge in every On* callback -/
 theorem C19_fact_pending_sites : Facts.metric_pending_sites =
     [("OnChunkInput", 1), ("OnChunkInputRecovered", 1), ("OnChunkConsumed", 2), ("OnChunkLeftover", 2),
